@@ -94,7 +94,8 @@ type Def struct {
 // ---------- expected HTML (spec reference renderer conventions, HTML5 void tags) ----------
 
 func esc(s string) string {
-	r := strings.NewReplacer("&", "&amp;", "<", "&lt;", ">", "&gt;", "\"", "&quot;")
+	// (U+0000 is replaced by U+FFFD wherever it is written: CommonMark 2.3, insecure characters)
+	r := strings.NewReplacer("&", "&amp;", "<", "&lt;", ">", "&gt;", "\"", "&quot;", "\x00", "\ufffd")
 	return r.Replace(s)
 }
 
